@@ -81,6 +81,8 @@ def make_notebooks():
     out["same"] = (cb, concretize.concrete(base), concretize.concrete(base))
     out["remote_only"] = (cb, concretize.concrete(base), concretize.concrete(edit(1, src=2, att=2)))
     out["local_only"] = (cb, concretize.concrete(edit(2, src=1, outs=6)), concretize.concrete(base))
+    # both sides edit the same two far-apart lines of one cell differently: two conflict regions in one source
+    out["two_regions"] = (cb, concretize.concrete(edit(0, src=5)), concretize.concrete(edit(0, src=6)))
     return out
 
 
@@ -281,7 +283,7 @@ def run():
                 continue
             for triple, strategy in (("conflict", None), ("clean", None), ("conflict", "use-local"),
                                      ("conflict", "use-remote"), ("clean", "use-base"), ("numkind", None),
-                                     ("same", None), ("remote_only", None), ("local_only", None)):
+                                     ("same", None), ("remote_only", None), ("local_only", None), ("two_regions", None)):
                 if s == "both_null" and (triple, strategy) != ("clean", None):
                     continue
                 base_cases.append((m, s, triple, strategy))
@@ -293,7 +295,7 @@ def run():
         points = sorted(steps_for.get((m, s), ()))
         for j, (st, k) in enumerate(points):
             ks = kinds if not chk.quick else (kinds[(n + j) % 4], "Kill" if (n + j) % 3 == 0 else kinds[(n + j + 1) % 4])
-            if triple in ("same", "remote_only", "local_only"):
+            if triple in ("same", "remote_only", "local_only", "two_regions"):
                 ks = ()                      # fault-free runs only
             elif chk.quick and (strategy is not None or triple == "numkind"):
                 ks = (kinds[(n + j) % 4],) if (n + j) % 4 == 0 else ()
@@ -315,13 +317,14 @@ def run():
         d, paths, out, entry, argv = setup_files(work, sc, nbs)
         spec = {"repo": REPO, "entry": entry, "argv": argv, "out": out, "both_null": sc.shape == "both_null"}
         before = read_bytes(out) if out else None
-        keep = ids_in(*[read_bytes(q) for q in paths.values() if q != NULL])
+        inputs = [read_bytes(q) for q in paths.values() if q != NULL]
+        keep = ids_in(*inputs)
         libres = lib(paths, sc)           # before the run: the driver overwrites the local file
         p = run_driver(d, dict(spec, fault=sc.fault))
         after = read_bytes(out) if out else None
         res = {"rc": p.returncode, "before": before, "after": after, "lib": libres,
                "fired": sc.fault is None or b"FAULT-FIRED" in p.stderr, "stdout": p.stdout,
-               "stderr": p.stderr[-400:].decode("utf8", "replace"), "paths": paths, "out": out, "keep": keep}
+               "stderr": p.stderr[-400:].decode("utf8", "replace"), "paths": paths, "out": out, "keep": keep, "inputs": inputs}
         if sc.fault is None:
             refs[(sc.mode, sc.shape, sc.triple, sc.strategy)] = after
         else:
@@ -367,6 +370,14 @@ def run():
                                   "notebook printed to stdout is not the library merge",
                                   key_info)
                     continue
+            # an exit status of zero promises that no unresolved conflict remains: independent of the library's own
+            # flags, a finished result that shows conflict markers / recorded conflicts must not come with status zero
+            shown = res["after"] if sc.mode in ("out", "driver") else (res["stdout"] if sc.mode == "stdout" else None)
+            if shown and ex_cls == "zero" and (b"<<<<<<<" in shown or b"nbdime-conflicts" in shown) \
+                    and not any(b"<<<<<<<" in (read_b or b"") or b"nbdime-conflicts" in (read_b or b"") for read_b in res.get("inputs", ())):
+                chk.violation("exit-zero-with-conflict-markers:%s" % sc.mode,
+                              "exit status 0 although the merged notebook shows unresolved conflict markers", key_info)
+                continue
             key = (sc.mode, sc.shape, conf, "none", "none", 0)
         else:
             if not res["fired"]:
